@@ -330,6 +330,13 @@ InSection(p) == pc[p] \in {"GenId", "CGet", "CSet", "CApp", "CDel", "RelId", "Id
                            "RbGet", "RbRemL", "RbRemT", "RbRemG", "RbDel", "RbRelId", "RelClaim"}
 ClaimExcludes == (Claim /\ ~expired) => Cardinality({p \in Acts : InSection(p)}) <= 1
 
+\* informational, NOT part of C06 (the statement is silent about index lists; kept for C17): index lists never
+\* name a mapping whose record is gone. Holds in every configuration except expiry + a failing
+\* RemoveFromList inside the rollback (its errors are ignored): a dangling copy stays in that list.
+MapIds == {m.id : m \in maps}
+NoDangling == Quiet => /\ glist \subseteq MapIds
+                       /\ \A c \in Clients : (clist[c] \ {Pre(c)}) \subseteq MapIds
+
 TypeOK == /\ rec.p \in BOOLEAN /\ recId.p \in BOOLEAN /\ expired \in BOOLEAN
           /\ claim \in Acts \cup {"none"}
           /\ faultLeft \in 0..MaxFault
